@@ -16,7 +16,7 @@ def shapes(rng):
     for nal in (False, True):
         for vcl in (False, True):
             for cnt in (0, 1, 31, rng.randrange(32)):
-                yield {"nal": nal, "vcl": vcl, "cnt": cnt, "ps": rng.random() < 0.7}
+                yield {"nal": nal, "vcl": vcl, "cnt": cnt, "cnt2": rng.choice([cnt, 0, 1, 2, 31]), "ps": rng.random() < 0.7}
 
 
 def enc_bp(rng, s):
